@@ -115,6 +115,12 @@ CHECKS["C04"] = dict(
    note="Trusted: twobody formulas as shimmed, Gaussian conjugacy lemma, SQRT/LOG uninterpreted with sqrt(x)^2=x; n_offsets>0 only up to X1-X3; <=2 epochs, <=2 rows, poly_trend<=3.",
    technique="symbolic execution of the real Python source + z3 (UF congruence, small NRA); replay against real twobody orbits",
    ref="3/C04")
+CHECKS["C09"] = dict(
+   text="Front-end F3: the pytensor graphs the real code builds are regenerated every run and evaluated symbolically: pm.logp(UniformLog) equals the normalised log-uniform log-density inside [a,b] and -inf outside for all a,b,v (LOG uninterpreted); the real UniformLogRV.rng_fn satisfies F(rng_fn(u)) = u and stays in the support for symbolic a,b,u (axioms LOG(EXP z)=z, monotonicity instances); "
+        "FixedCompanionMass's sigma graph equals clip(sigma_K0 (P/P0)^(-1/3)/sqrt(1-e^2), 0, max_K) in consistent units for several unit configurations; Kipping Beta constants; JokerPrior.default wiring (ops, parameters, units, order); every log-density graph JokerPrior.sample evaluates for ln_prior is a function of the row (no re-drawn RandomVariable ancestors).",
+   note="Trusted: z3, symx.ptfront op translation (unknown op = inconclusive), numpy/pytensor samplers for Beta/Normal/uniform bits, pymc's own logp of Normal/Beta, pymc_ext.angle.",
+   technique="symbolic evaluation of the real pytensor graphs + z3 (UF with named axioms); counterexamples replayed on pm.logp(...).eval()/pm.draw against scipy",
+   ref="3/C09")
 NOT_YET = {}
 ALL = ["C%02d" % i for i in range(1, 20)]
 
